@@ -49,7 +49,8 @@ pub struct Script {
     pub items: Vec<Item>,
     /// endless tail: batch number n (0-based) of the tail
     pub tail: Option<TailGen>,
-    /// the tail ends with an error after this many batches (harness safety net)
+    /// the tail ends with an error after this many batches (harness safety net); with
+    /// `end == End::HangParked` it parks (`Pending` forever, no wake-up) at the cap instead
     pub tail_cap: u64,
     /// the tail returns `Pending` (self-waking) once after every this many batches (0 = never)
     pub tail_pending_every: u64,
@@ -133,12 +134,16 @@ impl Monitor {
     pub fn tail_batches(&self) -> u64 {
         self.sum(|p| p.tail_batches.load(Ordering::SeqCst))
     }
-    /// smallest number of tail batches produced by any partition that has a stream
+    /// smallest number of tail batches produced by any partition that was executed at all
     pub fn min_tail_batches(&self) -> u64 {
-        self.probes.lock().iter().map(|p| p.tail_batches.load(Ordering::SeqCst)).min().unwrap_or(0)
+        self.probes.lock().iter().filter(|p| p.executes.load(Ordering::SeqCst) > 0).map(|p| p.tail_batches.load(Ordering::SeqCst)).min().unwrap_or(0)
     }
     pub fn polls(&self) -> u64 {
         self.sum(|p| p.polls.load(Ordering::SeqCst))
+    }
+    /// every partition that was executed has reached its tail cap
+    pub fn all_capped(&self) -> bool {
+        self.probes.lock().iter().all(|p| p.executes.load(Ordering::SeqCst) == 0 || p.capped.load(Ordering::SeqCst) > 0)
     }
     pub fn capped(&self) -> u64 {
         self.sum(|p| p.capped.load(Ordering::SeqCst))
@@ -157,6 +162,7 @@ pub struct ScriptStream {
     tail_n: u64,
     tail_since_pending: u64,
     done: bool,
+    cap_noted: bool,
     probe: Arc<Probe>,
     _token: Arc<()>,
 }
@@ -166,7 +172,7 @@ impl ScriptStream {
         let token = Arc::new(());
         probe.tokens.lock().push(Arc::downgrade(&token));
         probe.executes.fetch_add(1, Ordering::SeqCst);
-        ScriptStream { schema, projection, script, pos: 0, pending_left: None, tail_n: 0, tail_since_pending: 0, done: false, probe, _token: token }
+        ScriptStream { schema, projection, script, pos: 0, pending_left: None, tail_n: 0, tail_since_pending: 0, done: false, cap_noted: false, probe, _token: token }
     }
 
     fn emit(&self, b: RecordBatch) -> Result<RecordBatch> {
@@ -229,6 +235,14 @@ impl Stream for ScriptStream {
                 return Poll::Ready(None);
             };
             if this.tail_n >= this.script.tail_cap {
+                if this.script.end == End::HangParked {
+                    // park at the cap instead of failing: lets slower partitions catch up
+                    if !this.cap_noted {
+                        this.cap_noted = true;
+                        this.probe.capped.fetch_add(1, Ordering::SeqCst);
+                    }
+                    return Poll::Pending;
+                }
                 this.done = true;
                 this.probe.capped.fetch_add(1, Ordering::SeqCst);
                 return Poll::Ready(Some(Err(DataFusionError::Execution(CAP_ERROR.into()))));
